@@ -405,8 +405,18 @@ package cache
 //@ func ttlRdsCache.Remove
 //@   property C05
 //@   requires t != nil
-//@   ensures #del rdsOp == 6
-//@   modifies rdsOp, rdsKey, rdsExp, region($alloc)
+//@   ensures #del rdsOp == 6 && rdsKey == strcat(t.prefix, key)
+//@   modifies rdsOp, rdsKey, rdsExp, rdsDelBad, region($alloc)
+// Clear: scans for the cache's own prefix and deletes nothing but keys that scan returned (keys of other users of the
+// same redis are never touched); stops at the first error
+//@ func ttlRdsCache.Clear
+//@   property C05
+//@   requires t != nil
+//@   ensures #ownpattern scanMatch == t.prefix + "*"
+//@   ensures #onlyscanned rdsDelBad == old(rdsDelBad)
+//@   modifies rdsOp, rdsKey, rdsExp, rdsDelBad, scanMatch, region($alloc)
+//@   loop 1
+//@     invariant iter != nil && scanMatch == t.prefix + "*" && rdsDelBad == old(rdsDelBad)
 //
 // ---- sharded wrapper: a key always goes to the same shard; every call is forwarded to that shard's cache ----
 //@ ghost wideShards int
